@@ -24,6 +24,7 @@ CONSTANTS
   Denied <- MCNoDenied
   Toks = {"none"}
   ResvTO = 30
+  QuotaDenied = {}
   HasAuth = TRUE
   CredKinds <- MCCredKinds
   Methods <- MCMethods
